@@ -60,7 +60,9 @@ Line ==
      [] e.k = "census" -> e.n = 0 /\ UNCHANGED vars /\ UNCH_T
      \* C10: after everything was closed and every timer ran out no pipe id is reserved, no pipe listed
      [] e.k = "final" -> e.ids = 0 /\ e.listed = 0 /\ UNCHANGED vars /\ UNCH_T
-     [] e.k = "q" -> AtNow /\ ~CanInternal /\ NoDueBy(e.t - 1) /\ UNCHANGED vars /\ UNCH_T
+     \* (a connection the peer dropped has been taken off the socket by the time nothing moves any more: the receiver of
+     \* this pattern never waits for the application, so it always gets back to reading and sees the loss)
+     [] e.k = "q" -> AtNow /\ ~CanInternal /\ (DroppedSoFar(l) \cap pipes = {}) /\ NoDueBy(e.t - 1) /\ UNCHANGED vars /\ UNCH_T
      [] e.k = "adv" ->
           /\ e.t >= now /\ NoDueBy(e.t) /\ ~CanInternal /\ now' = e.t
           /\ UNCHANGED <<opt, sqCap, sclosed, pipes, pclosed, sendQ, txHold, cclosed, cur, surveys, cancelled,
